@@ -455,6 +455,10 @@ func (w *ksWorld) serve(app *fiber.App, conn *harness.Conn, r *ksReq, o *ksObs) 
 			hs = hs[:i] + "Set-Cookie(fiber_flash, bytes sorted): " + string(b) + hs[j:]
 		}
 		res = fmt.Sprintf("%d|%s|%q", resp.Status, hs, resp.Body)
+		if resp.Unsolicited > 0 {
+			// bytes of an earlier exchange that nobody asked for arrived on this connection before the request
+			res += fmt.Sprintf("|after %d unsolicited bytes on the connection", resp.Unsolicited)
+		}
 	}()
 	return res
 }
